@@ -232,6 +232,17 @@ def check_sta(sim, c, delays, stim, n, opts, dataset=0):
             if finite and (min(finite) < win[l.index][0] or max(finite) > win[l.index][1]):
                 out.append(('sta-window', f'lane {lane} line {l.index}: transitions {finite} outside the static-timing window {win[l.index]}'))
                 return out
+        # the captured earliest arrival s[4] / latest stabilisation s[5] of every output and state element lie inside the window of the captured line
+        S = np.asarray(sim.s)
+        for i, nd in enumerate(evaln.s_nodes(c)):
+            if len(nd.ins) == 0 or nd.ins[0] is None or cl[nd.ins[0].index] < 0:
+                continue
+            li = nd.ins[0].index
+            eat, lst = float(S[4, i, lane]), float(S[5, i, lane])
+            has = eat < float(W.TMAX) or lst > float(W.TMIN)
+            if has and (win[li] is None or (eat < float(W.TMAX) and eat < win[li][0]) or (lst > float(W.TMIN) and lst > win[li][1])):
+                out.append(('sta-window:captured', f'lane {lane} {nd.name}: captured earliest arrival {eat} / latest stabilisation {lst} outside the static-timing window {win[li]} of line {li}'))
+                return out
     return out
 
 
